@@ -538,6 +538,18 @@ func cfgSession(r *mon.Run, bin string, ci int, cs cfgCase) {
 		a.mu.Lock()
 		ended := a.ended
 		a.mu.Unlock()
+		if one {
+			// After the one shell of -one-shell has gone the HTTP server winds down, but the
+			// broker has not been told to shut down yet (main's context is cancelled only when
+			// the server has finished): in the broker's terms - and the statement's - this is an
+			// idle broker, and what it does with an attempt that slips in before the server has
+			// closed the connection is not C01's business (C12 counts it too, and judges only the
+			// exit).  Counted, never judged.
+			if strings.Contains(a.received(), lateProbe) || !ended {
+				r.Count("cfg_one_shell_aftermath_attempts_served_or_left_open", 1)
+			}
+			continue
+		}
 		if strings.Contains(a.received(), lateProbe) {
 			viol("shutdown-attempt-got-input", "attempt "+a.name+", made on a connection older than the shell after the program's shutdown had begun ("+map[bool]string{true: "the one shell of -one-shell was gone", false: "Ctrl+D"}[one]+"), was sent operator input", a)
 		}
@@ -546,7 +558,9 @@ func cfgSession(r *mon.Run, bin string, ci int, cs cfgCase) {
 		}
 	}
 	term := s.P.Clean()
-	if strings.Contains(term, shutTok) {
+	if strings.Contains(term, shutTok) && one {
+		r.Count("cfg_one_shell_aftermath_output_displayed", 1)
+	} else if strings.Contains(term, shutTok) {
 		viol("shutdown-attempt-output-displayed", "output of an attempt made after the program's shutdown had begun ("+map[bool]string{true: "the one shell of -one-shell was gone", false: "Ctrl+D"}[one]+") was displayed", late[len(late)-1])
 	}
 	for _, a := range reqs {
